@@ -1071,6 +1071,106 @@ func (h *history) sigStep(secret, uri, sig, ts string) bool {
 	return obs
 }
 
+// ---- the proxy's back channel with per-token answers and a parked call ----
+// common.FakeAuth answers every call of an endpoint alike. For overlapping session checks the driver puts a
+// thin layer in front of FakeAuth's own handler (same listener, same URL): while [on], /validate and /refresh
+// are answered by the TOKEN they carry (X-Access-Token header / refresh_token form field), every call is logged
+// with its token, and calls whose token is in [park] wait until released.
+type backLayer struct {
+	mu      sync.Mutex
+	on      bool
+	byToken map[string]int // token -> status of /validate resp. /refresh (201 = refreshed)
+	park    map[string]bool
+	gates   []chan struct{}
+	calls   []backCall
+}
+
+type backCall struct{ Endpoint, Token string }
+
+var back = &backLayer{}
+
+func (b *backLayer) wrap(next http.Handler) http.Handler {
+	return http.HandlerFunc(func(w http.ResponseWriter, r *http.Request) {
+		b.mu.Lock()
+		on := b.on
+		b.mu.Unlock()
+		if !on {
+			next.ServeHTTP(w, r)
+			return
+		}
+		parts := strings.Split(strings.Trim(r.URL.Path, "/"), "/")
+		ep := parts[len(parts)-1]
+		tok := r.Header.Get("X-Access-Token")
+		if ep == "refresh" {
+			r.ParseForm()
+			tok = r.Form.Get("refresh_token")
+		}
+		b.mu.Lock()
+		b.calls = append(b.calls, backCall{ep, tok})
+		st, ok := b.byToken[tok]
+		var gate chan struct{}
+		if b.park[tok] {
+			gate = make(chan struct{})
+			b.gates = append(b.gates, gate)
+		}
+		b.mu.Unlock()
+		if gate != nil {
+			select {
+			case <-gate:
+			case <-time.After(4 * time.Second):
+			}
+		}
+		if !ok {
+			st = 500
+		}
+		w.WriteHeader(st)
+		switch ep {
+		case "refresh":
+			io.WriteString(w, c.JSONBody(map[string]interface{}{"access_token": "at-new", "expires_in": 1800}))
+		case "profile":
+			io.WriteString(w, c.JSONBody(map[string]interface{}{"email": "x", "groups": []string{}}))
+		default:
+			io.WriteString(w, "{}")
+		}
+	})
+}
+
+func (b *backLayer) start(byToken map[string]int, park map[string]bool) {
+	b.mu.Lock()
+	b.on, b.byToken, b.park, b.gates, b.calls = true, byToken, park, nil, nil
+	b.mu.Unlock()
+}
+
+func (b *backLayer) parked() int {
+	b.mu.Lock()
+	defer b.mu.Unlock()
+	return len(b.gates)
+}
+
+func (b *backLayer) stop() []backCall {
+	b.mu.Lock()
+	gates, calls := b.gates, b.calls
+	b.on, b.gates, b.calls = false, nil, nil
+	b.mu.Unlock()
+	for _, g := range gates {
+		select {
+		case <-g:
+		default:
+			close(g)
+		}
+	}
+	return calls
+}
+
+func (b *backLayer) release() {
+	b.mu.Lock()
+	gates := b.gates
+	b.mu.Unlock()
+	for _, g := range gates {
+		close(g)
+	}
+}
+
 // ---- reuse of a saved proxy session ----
 
 type psess struct {
@@ -1085,6 +1185,114 @@ func (s psess) coq() string {
 
 type backAns struct {
 	Refresh, Validate int // 0 = reset
+}
+
+// overlapReuse: the saved copy of the old session comes back WHILE a due check of another, live session of the
+// same user on the same upstream is waiting for the authenticator (its back-channel call is parked). The two
+// requests carry different tokens, so each must be checked with its own: they are emitted as two ordinary
+// reuse observations, the back-channel calls attributed by token.
+func (h *history) overlapReuse(pw *proxyWorld, host string, live, old psess, vnow int64, oldRevoked bool, refreshDue bool) {
+	tokOf := func(s psess) string {
+		if refreshDue {
+			return s.Refresh
+		}
+		return s.Access
+	}
+	okSt, ep := 200, "validate"
+	if refreshDue {
+		okSt, ep = 201, "refresh"
+	}
+	oldSt := okSt
+	if oldRevoked {
+		oldSt = 401
+	}
+	back.start(map[string]int{tokOf(live): okSt, tokOf(old): oldSt}, map[string]bool{tokOf(live): true})
+	t0 := time.Now()
+	mk := func(s psess) *http.Request {
+		at := func(d int64) time.Time { return t0.Add(time.Duration(d-vnow) * time.Second) }
+		ss := &sessions.SessionState{ProviderSlug: s.Slug, ProviderType: "sso", Email: s.Email, AccessToken: s.Access, RefreshToken: s.Refresh,
+			RefreshDeadline: at(s.RefreshDL), LifetimeDeadline: at(s.LifetimeDL), ValidDeadline: at(s.ValidDL), AuthorizedUpstream: s.Upstream}
+		raw := "GET /dashboard HTTP/1.1\r\nHost: " + host + "\r\n"
+		if pw.secure {
+			raw += "X-Forwarded-Proto: https\r\n"
+		}
+		raw += "Cookie: " + proxyCookie + "=" + pw.W.Seal(ss) + "\r\n\r\n"
+		return rawRequest(raw)
+	}
+	pw.B.Take()
+	type res struct {
+		rec  *httptest.ResponseRecorder
+		done chan struct{}
+	}
+	run := func(s psess) *res {
+		r := &res{rec: httptest.NewRecorder(), done: make(chan struct{})}
+		req := mk(s)
+		go func() { pw.handler.ServeHTTP(r.rec, req); close(r.done) }()
+		return r
+	}
+	ra := run(live)
+	for back.parked() < 1 { // the live session's check is waiting at the authenticator
+		select {
+		case <-ra.done: // it never asked (not due / refused earlier): nothing to overlap with
+		default:
+			if time.Since(t0) < stepGuard {
+				time.Sleep(200 * time.Microsecond)
+				continue
+			}
+			slowStep = true
+		}
+		break
+	}
+	rb := run(old)
+	select { // on the unchanged tree the old copy is answered on its own; give a merged one no more than this
+	case <-rb.done:
+	case <-time.After(300 * time.Millisecond):
+	}
+	back.release()
+	for _, r := range []*res{ra, rb} {
+		select {
+		case <-r.done:
+		case <-time.After(5 * time.Second):
+			slowStep = true
+		}
+	}
+	guard(t0.Add(300 * time.Millisecond))
+	calls := back.stop()
+	seen := pw.B.Take()
+	for k, it := range []struct {
+		s   psess
+		r   *res
+		st  int
+		who string
+	}{{live, ra, okSt, "live"}, {old, rb, oldSt, "old-copy"}} {
+		var mine []string
+		for _, cl := range calls {
+			if cl.Token == tokOf(it.s) && cl.Endpoint == ep {
+				mine = append(mine, cl.Endpoint)
+			}
+		}
+		served := false
+		for _, rr := range seen { // the backend logs the identity the proxy asserted
+			if rr.Header.Get("X-Forwarded-Access-Token") == it.s.Access || (rr.Header.Get("X-Forwarded-Email") == it.s.Email && len(seen) == 2) {
+				served = true
+			}
+		}
+		if it.r.rec.Code == 200 && it.r.rec.Body.String() == "backend:b" {
+			served = true
+		} else {
+			served = false
+		}
+		ba := backAns{Refresh: 201, Validate: 200}
+		if refreshDue {
+			ba.Refresh = it.st
+		} else {
+			ba.Validate = it.st
+		}
+		if it.st == 401 {
+			ba = backAns{Refresh: 401, Validate: 401}
+		}
+		h.emitReuse(pw, host, it.s, vnow, ba, it.r.rec, served, mine, map[string]interface{}{"overlap": it.who, "position": k})
+	}
 }
 
 func (h *history) reuseStep(pw *proxyWorld, host string, s psess, vnow int64, ba backAns) {
@@ -1109,6 +1317,11 @@ func (h *history) reuseStep(pw *proxyWorld, host string, s psess, vnow int64, ba
 	guard(t0)
 	served := len(pw.B.Take()) >= 1
 	calls := pw.W.Auth.TakeCalls()
+	h.emitReuse(pw, host, s, vnow, ba, rec, served, calls, nil)
+}
+
+// emitReuse projects one observed request that presented a saved proxy session.
+func (h *history) emitReuse(pw *proxyWorld, host string, s psess, vnow int64, ba backAns, rec *httptest.ResponseRecorder, served bool, calls []string, extra map[string]interface{}) {
 	loc := rec.Header().Get("Location")
 	signin := strings.HasPrefix(loc, pw.W.Auth.Srv.URL+"/"+pw.slug+"/sign_in")
 	eff, _ := c.CookieEffect(rec, proxyCookie)
@@ -1134,8 +1347,12 @@ func (h *history) reuseStep(pw *proxyWorld, host string, s psess, vnow int64, ba
 		c.Str(pw.slug), c.Z(pw.L), c.Z(pw.V), c.Z(pw.G), c.Str(host), c.Z(vnow), s.coq(), st(ba.Refresh), c.Str("at-new"), st(ba.Validate),
 		c.Bool(served), c.Z(int64(rec.Code)), c.Bool(signin), effN, c.List(callsCoq))
 	h.steps = append(h.steps, coq)
-	h.js = append(h.js, map[string]interface{}{"step": "reuse_saved_proxy_cookie", "host": host, "session": s, "now": vnow, "back_channel": ba,
-		"served": served, "status": rec.Code, "cookie": eff, "calls": calls})
+	j := map[string]interface{}{"step": "reuse_saved_proxy_cookie", "host": host, "session": s, "now": vnow, "back_channel": ba,
+		"served": served, "status": rec.Code, "cookie": eff, "calls": calls}
+	for k, v := range extra {
+		j[k] = v
+	}
+	h.js = append(h.js, j)
 }
 
 // ---------------------------------------------------------------------------------------------
@@ -1233,6 +1450,18 @@ func (e *env) flow(i int) c.Case {
 		if len(p2.Revoked) > 0 && out2.revokes(pw.slug) {
 			revoked = true
 		}
+	}
+	// the user signs in again; the saved copy of the OLD session is presented while a due check of the new one
+	// is waiting for the authenticator
+	if utf8.ValidString(host) && r.Chance(0.5) {
+		vnow := int64(100000)
+		refreshDue := r.Chance(0.4)
+		old := psess{Slug: pw.slug, Email: s.Email, Access: s.Access, Refresh: s.Refresh, Upstream: host, ValidDL: vnow - 60, RefreshDL: vnow + 900, LifetimeDL: vnow + 7200}
+		live := psess{Slug: pw.slug, Email: s.Email, Access: s.Access + "-again", Refresh: s.Refresh + "-again", Upstream: host, ValidDL: vnow - 120, RefreshDL: vnow + 900, LifetimeDL: vnow + 7200}
+		if refreshDue {
+			old.RefreshDL, live.RefreshDL = vnow-60, vnow-120
+		}
+		h.overlapReuse(pw, host, live, old, vnow, revoked, refreshDue)
 	}
 	// saved copies of the old proxy session come back (not on a Host that is not valid UTF-8: the session's
 	// JSON codec replaces such bytes, so no session can be bound to that host — not this property's business)
@@ -1643,6 +1872,16 @@ func (e *env) corpus() []func() c.Case {
 							ba = backAns{401, 401}
 						}
 						vnow := int64(100000)
+						for _, refreshDue := range []bool{false, true} {
+							old := psess{Slug: pw.slug, Email: s.Email, Access: s.Access, Refresh: s.Refresh, Upstream: host, ValidDL: vnow - 60, RefreshDL: vnow + 900, LifetimeDL: vnow + 7200}
+							live := psess{Slug: pw.slug, Email: s.Email, Access: "at-signed-in-again", Refresh: "rt-signed-in-again", Upstream: host, ValidDL: vnow - 120, RefreshDL: vnow + 900, LifetimeDL: vnow + 7200}
+							if refreshDue {
+								old.RefreshDL, live.RefreshDL = vnow-60, vnow-120
+							}
+							if utf8.ValidString(host) {
+								h.overlapReuse(pw, host, live, old, vnow, revoked, refreshDue)
+							}
+						}
 						// not yet due / validation due / refresh due
 						for _, dl := range [][2]int64{{120, 900}, {-60, 900}, {-60, -60}} {
 							h.reuseStep(pw, host, psess{Slug: pw.slug, Email: s.Email, Access: s.Access, Refresh: s.Refresh, Upstream: host,
@@ -1882,6 +2121,7 @@ func main() {
 	f := newIdp()
 	defer f.srv.Close()
 	fa := c.NewFakeAuth()
+	fa.Srv.Config.Handler = back.wrap(fa.Srv.Config.Handler) // nothing has been served yet
 	defer fa.Srv.Close()
 	authHost := strings.TrimPrefix(fa.Srv.URL, "http://")
 	e := &env{r: r, f: f}
